@@ -135,7 +135,15 @@ Fixpoint rx_loop (fuel : nat) (need nenv : nat) (b : bytes) (e : bool) (l : opti
           if e then ([], {| buf := []; eom := false;
                             lastp := match l with Some lp => if is_done_tok (l_tok lp) then None else l | None => None end |})
           else ([], {| buf := b; eom := e; lastp := l |})
-        | PErr c => ([EvErr 61], {| buf := b; eom := e; lastp := l |})            (* parse error: reported, position rolled back *)
+        | PErr c r =>
+          (* parse error: reported; if the failing attempt consumed everything at the end of a message the queue
+             is reset, otherwise the position is rolled back (the same error is raised again by the next packet) *)
+          match r with
+          | [] => if e then ([EvErr 61], {| buf := []; eom := false;
+                                          lastp := match l with Some lp => if is_done_tok (l_tok lp) then None else l | None => None end |})
+                  else ([EvErr 61], {| buf := b; eom := e; lastp := l |})
+          | _ :: _ => ([EvErr 61], {| buf := b; eom := e; lastp := l |})
+          end
         | PPanic => ([EvErr (-1)], {| buf := b; eom := e; lastp := l |})
         | POk fields r =>
           if tok =? tok_envchange then
